@@ -9,9 +9,15 @@ def looks_polynomial(den, d, names, pars, rng):
     """(d+1)-th forward difference of the exact/high-precision value along lines: True if it vanishes
     on every usable line, False if it does not, None if no line stays inside the domain."""
     verdicts = []
-    for attempt in range(6):
-        base = {n: Fr(rng.randint(9, 20), 8) for n in names}
-        direc = {n: Fr(rng.randint(1, 5), 16) for n in names}
+    for attempt in range(14):
+        if attempt % 2:
+            # lines through the region where every variable exceeds 1 (inside the domain of sqrt / log / acosh)
+            base = {n: Fr(rng.randint(9, 20), 8) for n in names}
+            direc = {n: Fr(rng.randint(1, 5), 16) for n in names}
+        else:
+            # lines that cross sign changes and integers (kinks of |x|, (x**2)**0.5, ...)
+            base = {n: Fr(rng.randint(-8, 2), 2) for n in names}
+            direc = {n: Fr(rng.choice([1, 2, 3, -1, -3]), 2) for n in names}
         vals = []
         try:
             for k in range(d + 2):
@@ -24,7 +30,7 @@ def looks_polynomial(den, d, names, pars, rng):
             diff = [diff[i + 1] - diff[i] for i in range(len(diff) - 1)]
         scale = max(abs(v) for v in vals) + 1
         verdicts.append(abs(diff[0]) <= scale * MP.mpf(10) ** -35)
-        if len(verdicts) >= 3:
+        if len(verdicts) >= 6:
             break
     if not verdicts:
         return None
